@@ -45,7 +45,7 @@ func c08Run(c *fw.Case, kind string, sync bool, k int, offline bool) {
 	var probeName string
 	var violated int32
 	var cameBack int32
-	w.HandlerWatch = func(ctx context.Context, ch chan<- configapi.TransactionEvent, call func(chan<- configapi.TransactionEvent) error) error {
+	w.SetHandlerWatch(func(ctx context.Context, ch chan<- configapi.TransactionEvent, call func(chan<- configapi.TransactionEvent) error) error {
 		if world.CurrentTask() != probeName {
 			return call(ch)
 		}
@@ -86,7 +86,7 @@ func c08Run(c *fw.Case, kind string, sync bool, k int, offline bool) {
 			}
 		}()
 		return nil
-	}
+	})
 	var call *engine.Call
 	switch kind {
 	case "ok":
